@@ -9,8 +9,9 @@ fields; and the canonical assignments form the parent-linked chain of a stored h
 Tie: correspondence stream `posa` of harness hlc (the real handlers on a real native service + CacheDB, really sealed
 headers over 16 secp256k1 keys, five routers) against drv_lc (the compiled model; ecrecover and hashes abstract).
 Search: the harness evaluates C29 directly on every stored header with an independent reference (plain parent walk).
-Stream `posamsc`: the msc (clique-style) handler against the model Poly.Model.LCPosa.Msc (theorems msc_*; the signer-set
-theorem is partial: membership in the snapshot the code's walk computes) and against an independent clique reference.
+Stream `posamsc`: the msc (clique-style) handler against the model Poly.Model.LCPosa.Msc (theorems msc_*, including that
+the walk over LastVoteParentOrEpoch links computes the clique replay over the plain parent chain) and against an independent
+clique reference.
 """
 
 
@@ -29,8 +30,6 @@ def run(ctx):
     ctx.cov["trusted_base"] += ["harness hlc/posa + drv_lc (correspondence check)", "Lean compiler for the driver",
                                 "go-ethereum crypto (secp256k1 sign / recover) used by the harness to seal headers"]
     ctx.cov["not_covered"] = [
-        "msc: the equivalence of the code's walk over LastVoteParentOrEpoch links with a plain replay of the votes over the parent "
-        "chain is NOT proved (Props def msc_signer_in_effect_set); it is exercised by the harness reference only",
         "polygon bor (spans + snapshots + Heimdall span proofs): not modelled, not driven",
         "heco EIP-1559 branch (is120 && !needFix): not driven",
         "uint64 / int64 wrap-around of header numbers above 2^63",
